@@ -1362,6 +1362,8 @@ class Interp:
             v = self.eval(k.value, fr)
             if k.arg is not None:
                 kwargs[k.arg] = v
+            elif isinstance(v, Dct) and v.default is None and all(isinstance(kk, str) for kk in v.items):
+                kwargs.update(v.items)          # **{"name": value, ...} with literal keys
         # super().m(...)
         if is_super:
             if fr.self_obj is not None and fr.C is not None:
